@@ -165,7 +165,7 @@ def run_job(job, workdir):
          ['-D' + d for d in job.defines] + ['-I' + i for i in job.includes] + job.sources + ['-o', a]
     r.cmds.append(' '.join(cc))
     rc, out, err, _ = run(cc, timeout=120)
-    if rc != 0:
+    if rc != 0 or 'is not declared' in (err + out):
         r.reason = 'goto-cc failed: ' + (err or out)[-800:]
         r.wall = time.time() - t0
         return r
